@@ -113,18 +113,16 @@ Definition dy_sgn (a : dyadic) : Z := Z.sgn (fst a).
 Definition dy_leb (a b : dyadic) : bool := (dy_sgn (dy_sub a b) <=? 0)%Z.
 Definition dy_ltb (a b : dyadic) : bool := (dy_sgn (dy_sub a b) <? 0)%Z.
 Definition dy_eqb (a b : dyadic) : bool := (dy_sgn (dy_sub a b) =? 0)%Z.
-(* representable in binary64 (exponent range below only; no overflow check needed for the theorems) *)
+(* sufficient test for "representable in binary64" (|m| < 2^53, e >= -1074; no overflow check: the theorems are
+   stated for an unbounded exponent range above).  Complete for decoded table entries (normalised mantissas) and for
+   the exact difference of two entries whose ratio is within [1/2, 2] or one of which is 0. *)
 Definition dy_fmt (a : dyadic) : bool :=
-  let '(m, e) := a in
-  (-1074 <=? e)%Z &&
-  (let n := (Z.log2 (Z.abs m) + 1)%Z in (n <=? 53)%Z || (Z.abs m mod 2 ^ (n - 53) =? 0)%Z).
-(* m*2^e < p/q  (q > 0) *)
+  let '(m, e) := a in (-1074 <=? e)%Z && (Z.abs m <? 2 ^ 53)%Z.
+(* m*2^e < p/q  and  m*2^e <= p/q  (q > 0), exact *)
 Definition dy_lt_q (a : dyadic) (p : Z) (q : positive) : bool :=
-  let '(m, e) := a in
-  if (0 <=? e)%Z then (m * 2 ^ e * Z.pos q <? p)%Z else (m * Z.pos q <? p * 2 ^ (- e))%Z.
+  let '(m, e) := a in (m * 2 ^ Z.max 0 e * Z.pos q <? p * 2 ^ Z.max 0 (- e))%Z.
 Definition dy_le_q (a : dyadic) (p : Z) (q : positive) : bool :=
-  let '(m, e) := a in
-  if (0 <=? e)%Z then (m * 2 ^ e * Z.pos q <=? p)%Z else (m * Z.pos q <=? p * 2 ^ (- e))%Z.
+  let '(m, e) := a in (m * 2 ^ Z.max 0 e * Z.pos q <=? p * 2 ^ Z.max 0 (- e))%Z.
 
 Definition dknot : Type := (dyadic * dyadic * dyadic)%type.
 Definition dtables : Type := list (list dknot * dyadic).
@@ -194,3 +192,45 @@ Definition all_steps (ts : dtables) : list (seg * dyadic) := all_steps_from 0 ts
 (* the segments whose tabulated step is >= p/q *)
 Definition big_steps (ts : dtables) (p : Z) (q : positive) : list seg :=
   map fst (filter (fun s => negb (dy_lt_q (snd s) p q)) (all_steps ts)).
+
+(* ---------- known finding F8, class `drift_step_ge_half_mm` ----------
+   (table, left knot) of the segments of the shipped tables whose tabulated radius step is >= 0.5 mm
+   (the same list is KNOWN_STEPS in harness/phys/src/c18.rs). Committed, not generated: a segment outside this
+   list with a step >= 0.5 mm makes `steps_okb` false, i.e. is reported. *)
+Definition known_steps : list seg :=
+  [
+   (0, 17); (1, 17); (2, 17); (3, 17); (4, 17); (5, 17); (6, 17); (7, 17); (8, 17); (9, 17);
+   (10, 17); (11, 17); (12, 17); (13, 17); (14, 17); (15, 17); (16, 17); (17, 17); (18, 17); (19, 17);
+   (24, 17); (25, 17); (26, 17); (27, 17); (28, 17); (29, 17); (30, 17); (31, 17); (32, 17); (33, 17);
+   (34, 17); (35, 17); (36, 17); (37, 17); (38, 17); (39, 17); (40, 17); (41, 17); (42, 17); (43, 17);
+   (44, 17); (45, 17); (46, 17); (47, 17); (48, 17); (49, 17); (50, 17); (51, 17); (52, 17); (53, 17);
+   (54, 17); (55, 17); (72, 17); (75, 17); (80, 17); (81, 1); (81, 2); (81, 4); (81, 6); (81, 8);
+   (81, 10); (81, 12); (81, 13); (81, 15); (83, 17); (87, 1); (87, 11); (88, 0); (88, 1); (88, 2);
+   (88, 3); (88, 4); (88, 5); (88, 6); (88, 7); (88, 8); (88, 9); (88, 10); (88, 11); (88, 12);
+   (88, 13); (88, 14); (88, 15); (88, 16); (89, 0); (89, 1); (89, 2); (89, 3); (89, 4); (89, 5);
+   (89, 6); (89, 7); (89, 8); (89, 9); (89, 10); (89, 11); (89, 12); (89, 13); (89, 14); (89, 15);
+   (89, 16); (90, 0); (90, 1); (90, 2); (90, 3); (90, 4); (90, 5); (90, 6); (90, 7); (90, 8);
+   (90, 9); (90, 10); (90, 11); (90, 12); (90, 13); (90, 14); (90, 15); (90, 16); (91, 0); (91, 1);
+   (91, 2); (91, 3); (91, 4); (91, 5); (91, 6); (91, 7); (91, 8); (91, 9); (91, 10); (91, 11);
+   (91, 12); (91, 13); (91, 14); (91, 15); (91, 16)
+  ].
+Definition seg_eqb (a b : seg) : bool := (fst a =? fst b) && (snd a =? snd b).
+Definition seg_mem (s : seg) (l : list seg) : bool := existsb (seg_eqb s) l.
+(* every tabulated step is < 0.5 mm, except in the known class *)
+Definition steps_okb (d : dtables) : bool :=
+  forallb (fun s => dy_lt_q (snd s) 5 10000 || seg_mem (fst s) known_steps) (all_steps d).
+(* the witness of F8: slice 0 contains z = 0; its knots 17 and 18 are 8 ns apart (to 1e-20 s) and their
+   radii differ by at least 0.5 mm *)
+Definition witness_okb (d : dtables) : bool :=
+  match nth_error d 0%nat with
+  | Some s =>
+      match nth_error (fst s) 17%nat, nth_error (fst s) 18%nat with
+      | Some a, Some b =>
+          dy_leb (0, 0)%Z (snd s) &&
+          negb (dy_lt_q (dy_sub (dk_radius a) (dk_radius b)) 5 10000) &&
+          dy_le_q (dy_sub (dk_time b) (dk_time a)) 800000000001 100000000000000000000 &&
+          negb (dy_lt_q (dy_sub (dk_time b) (dk_time a)) 799999999999 100000000000000000000)
+      | _, _ => false
+      end
+  | None => false
+  end.
